@@ -212,3 +212,194 @@ def worker_table(args):
     res['encoded'] = sorted(ex.encoded)
     res['models'] = sorted(ex.models_used)
     return res
+
+
+# ------------------------------------------------------------------------------ C15: IpGenerator (sim/elvis/src/ip_generator.rs through the shim crate)
+
+def avail_real(ex, gen, w):
+    """w lies in some available range of the real generator (BTreeSet<IpRange> model)"""
+    fs = gen.f[0]          # available_ranges
+    acc = False
+    for (rng, _) in fs.items:
+        s_, e_ = u32_of_ipaddr(ex, rng.f[0]), u32_of_ipaddr(ex, rng.f[1])
+        acc = b_or(acc, b_and(ex.binop('Le', s_, w, False), ex.binop('Le', w, e_, False)))
+    return acc
+
+
+def net_bounds(ex, net):
+    """(id, broadcast) of an Ipv4Net value as 32-bit Ints, computed by the reference (id | ~mask)"""
+    idv = u32_of_ipaddr(ex, net.f[0])
+    mask = net.f[1].f[0]
+    bc = ex.binop('BitOr', idv, ex.binop('BitXor', mask, U32(0xffffffff), False), False)
+    return idv, bc
+
+
+def in_net(ex, w, net):
+    i, b = net_bounds(ex, net)
+    return b_and(ex.binop('Le', i, w, False), ex.binop('Le', w, b, False))
+
+
+def mk_net(ex, tag, lo=0, hi=32):
+    addr = sym_int(f'{tag}_addr', 32)
+    n = sym_int(f'{tag}_len', 32)
+    ex.assume(ex.binop('Ge', n, U32(lo), False))
+    ex.assume(ex.binop('Le', n, U32(hi), False))
+    mask = ex.call('subnetting::Ipv4Mask::from_bitcount', [n])
+    return ex.call('subnetting::Ipv4Net::new', [ipaddr_of_u32(ex, addr), mask]), n
+
+
+def run_gen_unit(ex, unit, res):
+    ops = unit['ops']
+    ctor = unit['ctor']
+
+    def body(ex):
+        w = sym_int('w', 32)            # witness address: every set equality below is checked for arbitrary w
+        pool, plen = mk_net(ex, 'pool', unit.get('pool_lo', 22), unit.get('pool_hi', 32))
+        pid, pbc = net_bounds(ex, pool)
+        log = [ctor]
+        if ctor == 'new_sub':
+            gen = {'g': ex.call('IpGenerator::new_sub', [clone_val(pool)])}
+            ref = in_net(ex, w, pool)
+        else:
+            gen = {'g': ex.call('IpGenerator::new_sub_no_ends', [clone_val(pool)])}
+            ref = b_and(ex.binop('Lt', pid, w, False), ex.binop('Lt', w, pbc, False))      # exactly the host addresses
+        res['obligations'] += 1
+        okv, m = _valid(ex, iff(avail_real(ex, gen['g'], w), ref))
+        if not okv:
+            raise SpecViolation(f'constructor-pool:{ctor}', f'{ctor}: the generator does not offer exactly the addresses of the configured pool', m)
+        held = []       # nets handed out and not yet returned
+        for i, kind in enumerate(ops):
+            before = ref
+            if kind in ('fetch_ip', 'fetch_net'):
+                if kind == 'fetch_ip':
+                    r = ex.call('IpGenerator::fetch_ip', [Ref(gen, 'g')])
+                    got_net = None
+                    if r.variant == 1:
+                        mask32 = ex.call('subnetting::Ipv4Mask::from_bitcount', [U32(32)])
+                        got_net = ex.call('subnetting::Ipv4Net::new', [r.f[0], mask32])
+                    want_len = U32(32)
+                else:
+                    ml = sym_int(f'm{i}', 32)
+                    ex.assume(ex.binop('Ge', ml, U32(unit.get('fetch_lo', 26)), False))
+                    ex.assume(ex.binop('Le', ml, U32(32), False))
+                    r = ex.call('IpGenerator::fetch_net', [Ref(gen, 'g'), ex.call('subnetting::Ipv4Mask::from_bitcount', [ml])])
+                    got_net = r.f[0] if r.variant == 1 else None
+                    want_len = ml
+                res['obligations'] += 1
+                if got_net is not None:
+                    log.append(f'{kind} -> Some')
+                    # every address of the returned network was available (not blocked, not held, inside the pool) ...
+                    okv, m = _valid(ex, b_or(b_not(in_net(ex, w, got_net)), before))
+                    if not okv:
+                        raise SpecViolation(f'handed-out-unavailable-address:{kind}', ' ; '.join(log) + ': the returned network contains an address that was not available (outside the pool, blocked or still held)', m)
+                    # ... and it has the requested mask
+                    okv, m = _valid(ex, ex.binop('Eq', got_net.f[1].f[0], ref_mask(ex, want_len), False))
+                    if not okv:
+                        raise SpecViolation(f'wrong-mask:{kind}', ' ; '.join(log) + ': the returned network does not have the requested mask', m)
+                    ref = b_and(before, b_not(in_net(ex, w, got_net)))
+                    held.append(got_net)
+                else:
+                    log.append(f'{kind} -> None')
+                    # exhaustion, not refusal: no single available range contains an aligned network of that size
+                    base = sym_int(f'base{i}', 32)
+                    hostmask = ex.binop('BitXor', ref_mask(ex, want_len), U32(0xffffffff), False)
+                    aligned = ex.binop('Eq', ex.binop('BitAnd', base, hostmask, False), U32(0), False)
+                    top = ex.binop('BitOr', base, hostmask, False)
+                    fits = False
+                    for (rng, _) in gen['g'].f[0].items:
+                        s_, e_ = u32_of_ipaddr(ex, rng.f[0]), u32_of_ipaddr(ex, rng.f[1])
+                        fits = b_or(fits, b_and(ex.binop('Le', s_, base, False), ex.binop('Le', top, e_, False)))
+                    sat, m = ex.check_sat(b_and(aligned, fits))
+                    if sat:
+                        raise SpecViolation(f'none-although-space-left:{kind}', ' ; '.join(log) + ': None was returned although an available range still contains an aligned network of the requested size', m)
+            elif kind == 'block':
+                bn, _ = mk_net(ex, f'blk{i}', unit.get('blk_lo', 24), 32)
+                ex.call('IpGenerator::block_subnet', [Ref(gen, 'g'), clone_val(bn)])
+                ref = b_and(before, b_not(in_net(ex, w, bn)))
+                log.append('block_subnet')
+            elif kind == 'return':
+                if not held:
+                    raise PathEnd()
+                hn = held.pop(0)
+                ex.call('IpGenerator::return_subnet', [Ref(gen, 'g'), clone_val(hn)])
+                ref = b_or(before, in_net(ex, w, hn))
+                log.append('return_subnet(held)')
+            res['obligations'] += 1
+            okv, m = _valid(ex, iff(avail_real(ex, gen['g'], w), ref))
+            if not okv:
+                raise SpecViolation(f'available-set-wrong-after:{kind}', ' ; '.join(log) + ': the set of available addresses differs from pool minus blocked minus held', m)
+        return log
+
+    def on_end(ex, kind, r):
+        res['paths'] += 1
+        if kind == 'panic':
+            res['violations'].append({'key': f'mirx:ipgen:panic:{r.msg[:60]}', 'desc': f'panic in {r.site}: {r.msg}', 'values': {}, 'unit': res['unit']})
+        elif len(res['samples']) < 2:
+            res['samples'].append(' ; '.join(r))
+
+    def wrapped(ex):
+        try:
+            return body(ex)
+        except SpecViolation as v:
+            m = v.model if v.model is not None else ex.check_sat()[1]
+            vals = {}
+            if m is not None:
+                for d in m.decls():
+                    try:
+                        vals[str(d)] = m[d].as_long()
+                    except Exception:
+                        pass
+            res['violations'].append({'key': f'mirx:ipgen:{v.role}', 'desc': v.desc, 'values': vals, 'unit': res['unit']})
+            raise PathEnd()
+
+    ex.explore(wrapped, on_end, deadline=unit.get('deadline'))
+
+
+def iff(a, b):
+    return b_or(b_and(a, b), b_and(b_not(a), b_not(b)))
+
+
+def gen_units(tier):
+    import itertools
+    us = [{'ctor': 'new_sub_no_ends', 'ops': [], 'pool_lo': 0}, {'ctor': 'new_sub', 'ops': [], 'pool_lo': 0}]
+    kinds = ['fetch_ip', 'fetch_net', 'block', 'return']
+    n = 3 if tier == 'quick' else 4
+    for seq in itertools.product(kinds, repeat=n):
+        # a return needs something held before it
+        heldc = 0
+        ok = True
+        for k in seq:
+            if k == 'return':
+                if heldc == 0:
+                    ok = False
+                    break
+                heldc -= 1
+            elif k.startswith('fetch'):
+                heldc += 1
+        if ok and any(k.startswith('fetch') for k in seq):
+            us.append({'ctor': 'new_sub', 'ops': list(seq)})
+    us.append({'ctor': 'new_sub_no_ends', 'ops': ['fetch_ip', 'fetch_ip']})
+    return us
+
+
+def worker_gen(args):
+    unit, budget = args
+    if 'g' not in _W:
+        _W['g'] = loader.load_shim(['ip_generator.rs'], name='shim-ipgen')
+    fns, enums, src, shim_root = _W['g']
+    ex = loader.new_exec(fns, enums, src)
+    ex.extra_roots = [shim_root]
+    res = {'unit': dict(unit), 'paths': 0, 'obligations': 0, 'violations': [], 'samples': [], 'unsupported': []}
+    t0 = time.time()
+    u = dict(unit, deadline=t0 + budget)
+    try:
+        run_gen_unit(ex, u, res)
+    except Unsupported as e:
+        res['unsupported'].append(str(e)[:300])
+    except Exception as e:
+        res['unsupported'].append(f'internal error {e!r}: ' + traceback.format_exc()[-600:])
+    res['wall'] = time.time() - t0
+    res['stats'] = dict(ex.stats)
+    res['encoded'] = sorted(ex.encoded)
+    res['models'] = sorted(ex.models_used)
+    return res
